@@ -25,6 +25,7 @@ type SpecEnv struct {
 	useLocals bool
 	callArgs  []ast.Expr
 	depth     int
+	pre       *State
 }
 
 type pkgMarker struct{ pkg *types.Package }
@@ -487,6 +488,14 @@ func (vc *VC) specBin(env *SpecEnv, e *SBin) Val {
 		vc.fail("spec: sort mismatch in %s: %s vs %s", specString(e), l.T.Sort, r.T.Sort)
 		return Val{TFalse, tb}
 	}
+	if l.T.Sort == SSlc && (e.Op == "==" || e.Op == "!=") && l.T.S != "(mkslc 0 0 0)" && r.T.S != "(mkslc 0 0 0)" {
+		// in specs, slice equality is equality of the slice headers (same backing array and range)
+		t := Eq(l.T, r.T)
+		if e.Op == "!=" {
+			t = Not(t)
+		}
+		return Val{t, tb}
+	}
 	saveSafe := vc.safe
 	vc.safe = false
 	t := vc.binop(env.st, op, l.T, r.T, l.GoT, nil)
@@ -533,8 +542,13 @@ func (vc *VC) specCall(env *SpecEnv, e *SCall) Val {
 		case "update":
 			m, k, v := vc.specEval(env, e.Args[0]), vc.specEval(env, e.Args[1]), vc.specEval(env, e.Args[2])
 			return Val{Store(m.T, k.T, v.T), m.GoT}
-		case "emptyset":
-			return Val{zeroOfSort(specSort(e.Args[0].(*SIdent).Name)), nil}
+		case "empty":
+			// empty("map[string]bool"): the all-default value of a spec sort
+			if lit, ok := e.Args[0].(*SLit); ok {
+				return Val{zeroOfSort(specSort(lit.Val)), nil}
+			}
+			vc.fail("spec: empty(\"type\") needs a string literal")
+			return Val{IntLit(0), nil}
 		case "isErr":
 			// errors.Is(err, target)
 			a, b := vc.specEval(env, e.Args[0]), vc.specEval(env, e.Args[1])
@@ -551,6 +565,12 @@ func (vc *VC) specCall(env *SpecEnv, e *SCall) Val {
 		case "lower":
 			a := vc.specEval(env, e.Args[0])
 			return Val{vc.uf("str_lower", SStr, a.T), a.GoT}
+		case "pre":
+			sub := *env
+			if env.pre != nil {
+				sub.st = env.pre
+			}
+			return vc.specEval(&sub, e.Args[0])
 		case "atlock":
 			sub := *env
 			if vc.lastLock != nil {
